@@ -27,6 +27,8 @@ type c18Base struct {
 	name string // e.g. "RSA-private"
 	kty  string
 	obj  map[string]any // the JWK as a JSON object, without alg/kid
+	// invalid: the key material is structurally invalid by the JOSE library's own Validate
+	invalid bool
 }
 
 var (
@@ -95,6 +97,28 @@ func setupC18() error {
 	}
 	if err := add("EC-P384-private", j384); err != nil {
 		return err
+	}
+	// structurally invalid private material (jwx's own key.Validate() rejects it): must never validate
+	for _, bi := range []int{0, 2, 4} { // RSA-private, EC-P521-private, OKP-private
+		b := c18Bases[bi]
+		for _, how := range []string{"blank-d", "short-d"} {
+			o := map[string]any{}
+			for k, v := range b.obj {
+				o[k] = v
+			}
+			if how == "blank-d" {
+				o["d"] = ""
+			} else if d, _ := o["d"].(string); len(d) > 8 {
+				o["d"] = d[:8]
+			}
+			// whether this material is structurally invalid is decided by the JOSE library itself
+			raw, _ := json.Marshal(o)
+			inv := true
+			if pk, perr := jwk.ParseKey(raw); perr == nil {
+				inv = pk.Validate() != nil
+			}
+			c18Bases = append(c18Bases, c18Base{name: b.name + "-" + how, kty: b.kty, obj: o, invalid: inv})
+		}
 	}
 	oct, err := jwk.FromRaw([]byte("0123456789abcdef0123456789abcdef0123456789abcdef0123456789abcdef"))
 	if err != nil {
@@ -190,7 +214,7 @@ func runC18(c *engine.Ctx) {
 	base := c18Bases[p.Draw(len(c18Bases), "cell:key")]
 	alg := c18Algs[p.Draw(len(c18Algs), "cell:alg")]
 	algPresent := alg != ""
-	want := acceptTable(base.kty, alg, algPresent)
+	want := acceptTable(base.kty, alg, algPresent) && !base.invalid
 	cell := fmt.Sprintf("%s x alg=%q", base.name, alg)
 	obj := jwkJSON(base, alg, algPresent, "cell")
 	raw, _ := json.Marshal(obj)
@@ -200,7 +224,13 @@ func runC18(c *engine.Ctx) {
 	c.Guard("C18.panic", "jwk.ParseKey "+cell, func() { key, perr = jwk.ParseKey(raw) })
 	if perr != nil {
 		c.Probe("cell_key_unparseable_by_jose_library")
+		want = false
 	} else {
+		if key.Validate() != nil {
+			// structural validity is defined by the JOSE library's own check
+			want = false
+			c.Probe("cell_key_structurally_invalid")
+		}
 		var verr error
 		c.Guard("C18.panic", "Validate "+cell, func() { verr = jwkutil.Validate(key) })
 		if (verr == nil) != want {
@@ -256,7 +286,7 @@ func runC18(c *engine.Ctx) {
 		o := jwkJSON(b, a, present, id)
 		// distinguish otherwise identical keys
 		o["x-bksim"] = fmt.Sprintf("k%d", i)
-		set = append(set, setKey{id: id, valid: acceptTable(b.kty, a, present), obj: o, desc: fmt.Sprintf("%s/%q id=%q", b.name, a, id)})
+		set = append(set, setKey{id: id, valid: acceptTable(b.kty, a, present) && !b.invalid, obj: o, desc: fmt.Sprintf("%s/%q id=%q", b.name, a, id)})
 	}
 	req := append([]string{""}, alpha...)[p.Draw(4, "set:request")]
 	var objs []map[string]any
@@ -287,7 +317,17 @@ func runC18(c *engine.Ctx) {
 			for k, v := range objs[i] {
 				o[k] = v
 			}
-			switch c.Sched.Draw(4, "field:which") {
+			switch c.Sched.Draw(6, "field:which") {
+			case 4:
+				if _, has := o["d"]; has {
+					o["d"] = ""
+					fire("field.private-param-blanked")
+				}
+			case 5:
+				if d, _ := o["d"].(string); len(d) > 6 {
+					o["d"] = d[:len(d)/2]
+					fire("field.private-param-truncated")
+				}
 			case 0:
 				o["alg"] = c18Algs[c.Sched.Draw(len(c18Algs), "field:alg")]
 				fire("field.alg-rewritten")
@@ -378,6 +418,9 @@ func runC18(c *engine.Ctx) {
 		}
 		if req != "" && lk.KeyID() != req {
 			c.Fail("C18.loadkey-fault", strings.Join(fired, "+"), "after %v LoadKey(id=%q) returned a key with id %q", fired, req, lk.KeyID())
+		}
+		if verr := lk.Validate(); verr != nil {
+			c.Fail("C18.loadkey-fault", strings.Join(fired, "+"), "after %v LoadKey returned a structurally invalid key (the JOSE library's own Validate: %v)\nfile:\n%s", fired, verr, truncate(string(persisted), 1500))
 		}
 		_, algSet := lk.Get(jwk.AlgorithmKey)
 		if !acceptTable(string(lk.KeyType()), lk.Algorithm().String(), algSet) {
